@@ -101,7 +101,7 @@ def _merge_parts(parts: list) -> dict:
         out[k] = [x for p in parts for x in p[k]]
     for k in ("inlined", "used_contracts", "assumption_ids"):
         out[k] = sorted(set(x for p in parts for x in p[k]))
-    out["canary_ok"] = False if any(p["canary_ok"] is False for p in parts) else (True if any(p["canary_ok"] for p in parts) else None)
+    out["canary_ok"] = True if any(p["canary_ok"] for p in parts) else (False if any(p["canary_ok"] is False for p in parts) else None)
     return out
 
 
